@@ -23,9 +23,17 @@ class MsgEnd(AbstractMessagingTransport):
         self.link.wire[self.side].append(frame.serialize())
         self.link.sent_frames[self.side].append(frame)
 
+    pump_dead = None
+
     async def feed(self, message):
-        async for fr in self._frame_parser.receive_data(message, 0):
-            self._incoming_frame_queue.put_nowait(fr)
+        # (what the pump task of every message transport of the library does with a message; if it raises, that pump is gone)
+        if self.pump_dead:
+            return
+        try:
+            async for fr in self._frame_parser.receive_data(message, 0):
+                self._incoming_frame_queue.put_nowait(fr)
+        except Exception as e:
+            self.pump_dead = type(e).__name__
 
     def feed_error(self):
         self._incoming_frame_queue.put_nowait(RSocketTransportError())
@@ -69,6 +77,22 @@ class Link:
 
     def pending(self, side):
         return len(self.stream[side]) if self.tcp else len(self.wire[side])
+
+    async def deliver_burst(self, side):
+        """everything `side` has written so far reaches its peer before the peer's receiver runs once (one big read / a burst of messages)"""
+        peer = 1 - side
+        n = 0
+        if self.tcp:
+            if self.stream[side]:
+                chunk = bytes(self.stream[side])
+                del self.stream[side][:]
+                self.readers[peer].feed_data(chunk)
+                n = 1
+        else:
+            while self.wire[side]:
+                await self.ends[peer].feed(self.wire[side].pop(0))
+                n += 1
+        return n
 
     async def deliver(self, side, rng):
         """move some of what `side` has written to its peer; returns False if nothing was pending"""
